@@ -13,6 +13,10 @@ package): declarations that are NOT runnable names but are spelled like one - ex
 methods with a signature mage cannot call, unexported functions, methods of non-namespace types, methods of an
 unexported namespace type, functions in a _test file or in a file excluded by a build constraint.  They are
 rendered, never part of the abstract package given to the model or the oracle.
+An imported package may declare its own `var Aliases` / `var Default` (import["own_aliases"] = [{key, ref}],
+import["own_default"] = id): mage ignores them (only the magefile's own declarations count), so they too are
+rendered only; spec["nonwords"] are words that must NOT be runnable (e.g. the keys of such ignored aliases).
+spec["mode"] names the way mage is invoked (plain, -debug, -v, MAGEFILE_DEBUG=1, ...): it must not matter.
 A history (generate()[i] is a list of specs) is one project directory + one cache going through several states.
 imports are import SPECS in source order (file 0 = magefile.go, file 1 = magefile2.go); several specs may
 name the same package (same pkg, same tgts): one package under several aliases, as root + alias, twice."""
@@ -165,6 +169,15 @@ class Proj:
         if ref is None or key == "" or any(a["key"] == key for a in self.spec["aliases"]):
             return False
         self.spec["aliases"].append({"key": key, "ref": ref})
+        return True
+
+    def own_alias(self, i, key, ref):
+        """an entry of the IMPORTED package's own `var Aliases` (ignored by mage)"""
+        i = next(j for j in self.spec["imports"] if j["tgts"] is i["tgts"])
+        oa = i.setdefault("own_aliases", [])
+        if not key or ref is None or any(a["key"] == key for a in oa):
+            return False
+        oa.append({"key": key, "ref": ref})
         return True
 
     def some_def(self):
@@ -502,6 +515,59 @@ def k_decoy_across(P, c):
         P.itgt(i, "", rcase(rng, w))
 
 
+def k_imported_aliases(P, c):
+    """the imported package declares its own Aliases (and Default): keys spelled like a local target, a local alias
+    key, one of its own targets, another import's target - all ignored, nothing collides, every name keeps running
+    its own definition and the keys themselves are not runnable; collision: a real case clash next to it"""
+    rng = P.rng
+    w, k = P.word(), rcase(rng, rng.choice(["gn", "sh", "r7"]), False)
+    d = P.local("", rcase(rng, w))
+    other = P.local("", rcase(rng, P.word()))
+    P.alias(k, other)
+    named = rng.random() < 0.5
+    a, tag = P.ialias()
+    i = P.imp(a if named else "", tag)
+    i["tag"] = i["alias"] and i["tag"]
+    g1 = P.itgt(i, "", rcase(rng, P.word()))
+    g2 = P.itgt(i, "", rcase(rng, P.word()))
+    g3 = P.itgt(i, P.nsword(), rcase(rng, P.word())) if rng.random() < 0.5 else None
+    j = P.imp(P.ial())
+    jw = rcase(rng, P.word())
+    P.itgt(j, "", jw)
+    if named:
+        # under the alias a the keys would be a:<key>: give the magefile names spelled like that
+        ns = a.capitalize()
+        m = P.local(ns, rcase(rng, P.word()))
+        if m:
+            P.own_alias(i, rcase(rng, P.spec["locals"][-1]["name"], False), g1)
+        P.alias(rcase(rng, a + ":kx", False), other)
+        P.own_alias(i, rcase(rng, "kx", False), g2)
+    P.own_alias(i, rcase(rng, w, False), g1)                      # spelled like the local target
+    P.own_alias(i, variant(rng, k, False) if rng.random() < 0.5 else k, g2)   # spelled like the local alias key
+    P.own_alias(i, i["tgts"][1]["name"].lower(), g1)              # spelled like another target of the same package
+    P.own_alias(i, rcase(rng, j["alias"] + ":" + jw, False), g3 or g2)        # spelled like another import's target
+    short = rng.choice(["qq", "zx9", "only"])
+    P.own_alias(i, short, g1)                                      # spelled like nothing: must stay unknown
+    i["own_default"] = g1
+    P.spec["nonwords"] = [short, (a + ":" + short) if named else short.upper()]
+    if c:
+        P.local("", variant(rng, P.spec["locals"][0]["name"]))
+
+
+def k_named_import_same_names(P, c):
+    """local Build/Test next to `mage:import ci` of a package with Build/Test (two or more targets): ci:build and
+    build are different names; collision: the local namespace method Ci.Build against the imported ci:Build"""
+    rng = P.rng
+    a, tag = P.ialias()
+    i = P.imp(a, tag)
+    ws = [P.word() for _ in range(rng.choice([2, 3]))]
+    for w in ws:
+        P.itgt(i, "", rcase(rng, w))
+        if rng.random() < 0.8:
+            P.local("", rcase(rng, w))
+    P.local(a.capitalize(), rcase(rng, ws[0]) if c else near(rng, ws[0]))
+
+
 KINDS = [("fn_case", k_fn_case), ("method_case", k_method_case), ("namespace_case", k_namespace_case),
          ("fn_vs_method", k_fn_vs_method), ("two_imports_one_alias", k_two_imports_one_alias),
          ("same_name_two_aliases", k_same_name_two_aliases), ("root_vs_local", k_root_vs_local), ("two_roots", k_two_roots),
@@ -510,7 +576,13 @@ KINDS = [("fn_case", k_fn_case), ("method_case", k_method_case), ("namespace_cas
          ("alias_vs_method", k_alias_vs_method), ("import_alias_colon", k_import_alias_colon),
          ("pkg_two_aliases", k_pkg_two_aliases), ("pkg_root_and_alias", k_pkg_root_and_alias),
          ("pkg_three_aliases", k_pkg_three_aliases), ("pkg_same_pair_twice", k_pkg_same_pair_twice),
-         ("decoys", k_decoys), ("decoy_across", k_decoy_across)]
+         ("decoys", k_decoys), ("decoy_across", k_decoy_across),
+         ("imported_aliases", k_imported_aliases), ("named_import_same_names", k_named_import_same_names)]
+
+# ways of invoking mage that must not influence what is accepted or which body runs: (flags, environment)
+MODES = {"plain": ([], {}), "-debug": (["-debug"], {}), "-v": (["-v"], {}), "MAGEFILE_DEBUG=1": ([], {"MAGEFILE_DEBUG": "1"}),
+         "MAGEFILE_VERBOSE=1": ([], {"MAGEFILE_VERBOSE": "1"}), "-f": (["-f"], {}), "MAGEFILE_HASHFAST=1": ([], {"MAGEFILE_HASHFAST": "1"})}
+MODE_POOL = ["plain"] * 5 + ["-debug"] * 3 + ["MAGEFILE_DEBUG=1"] * 2 + ["-v", "MAGEFILE_VERBOSE=1", "-f", "MAGEFILE_HASHFAST=1"]
 
 
 def fillers(P):
@@ -533,6 +605,13 @@ def fillers(P):
         tg = P.spec["locals"] if where is None else where["tgts"]
         if tg:
             decoys_like(P, where, rng.choice(tg))
+    if rng.random() < 0.25 and P.spec["imports"]:
+        i = rng.choice(P.spec["imports"])
+        names = [runnable(all_defs(P.spec)[x], y) for x, y in exposures(P.spec)] + [x["key"] for x in P.spec["aliases"]]
+        if i["tgts"] and names:
+            P.own_alias(i, rcase(rng, rng.choice(names), False), rng.choice(i["tgts"])["id"])
+            if rng.random() < 0.5:
+                i["own_default"] = rng.choice(i["tgts"])["id"]
     for k in rng.sample(["zz", "f1", "al9", "k:l", "w8"], rng.choice([0, 0, 1, 2])):
         P.alias(rcase(rng, k, False), P.some_def())
 
@@ -672,6 +751,7 @@ def history(rng, name, hk, fn):
         choose_words(P)
         st["step"] = k
         st["cmds"] = ["l", "h", "run"] + (["compiled"] if rng.random() < 0.4 else [])
+        st["mode"] = rng.choice([m for m in MODE_POOL if m != "MAGEFILE_HASHFAST=1"])      # hashfast documents staleness
         out.append(st)
     return out
 
@@ -695,6 +775,7 @@ def generate(rng, reps, soups, hists=1):
                     rng.shuffle(P.spec["locals"])
                 P.finish()
                 choose_words(P)
+                P.spec["mode"] = rng.choice(MODE_POOL)
                 specs.append([P.spec])
         # two collisions of different kinds in one package (which one is reported first is not compared)
         for _ in range(3):
@@ -719,6 +800,7 @@ def generate(rng, reps, soups, hists=1):
         soup(P)
         P.finish()
         choose_words(P)
+        P.spec["mode"] = rng.choice(MODE_POOL)
         specs.append([P.spec])
     return specs
 
@@ -842,6 +924,11 @@ def render(spec):
             im.append('\t"github.com/magefile/mage/mg"\n')
         if im:
             s += "import (\n" + "".join(im) + ")\n\n"
+        byid = {t["id"]: ((t["recv"] + "." if t["recv"] else "") + t["name"]) for t in i["tgts"]}
+        if i.get("own_aliases"):
+            s += "var Aliases = map[string]interface{}{\n" + "".join("\t%s: %s,\n" % (_goq(a["key"]), byid[a["ref"]]) for a in i["own_aliases"] if a["ref"] in byid) + "}\n\n"
+        if i.get("own_default") in byid:
+            s += "var Default = %s\n\n" % byid[i["own_default"]]
         s += _decls(i["tgts"], i.get("decoys", ()))
         files["imp/%s/%s.go" % (i["pkg"], i["pkg"])] = s
         files.update(_side_files(i["pkg"], i.get("decoys", ()), "imp/%s/" % i["pkg"], ""))
